@@ -3,8 +3,8 @@
 
 Only *data* is read here: the message-type numbers `_dispatch` compares against, the label / handler numbers
 the frame classifier of the server model mentions, the defaults of `ThreadPoolServer` (`nbThreads`,
-`requestBatchSize`), which server classes exist, and one measured fact about the live pool code (see
-`poolDropSparesNewcomer`).  Everything that is control flow (the accept loop, the
+`requestBatchSize`), which server classes exist, and two measured facts about the live pool code (see
+`poolDropSparesNewcomer`, `poolCloseUnblocksWorkers`).  Everything that is control flow (the accept loop, the
 try/finally of `_authenticate_and_serve_client`, the pool's poller / worker catch-alls, `close()`) is modelled
 by hand in lean/RpycModel/Srv/Server.lean and tied to the code behaviourally by the C16 / C17 correspondence
 runs against the real servers, so that harmless rewrites of the code are not flagged.
@@ -55,6 +55,74 @@ def _drop_spares_newcomer(server):
         srv.listener.close()
 
 
+def _close_unblocks_workers(server):
+    """`ThreadPoolServer.close()` run on a never-started server whose threads and one connection are stand-ins that record
+    what is done to them: true iff the connection's socket was shut down (or the connection closed) BEFORE the first worker
+    is joined - i.e. a worker blocked reading from that connection would come back and the join would end"""
+    import rpyc
+    events = []
+
+    class Sock(object):
+        def shutdown(self, how):
+            events.append("end")
+
+        def close(self):
+            events.append("end")
+
+    class Stream(object):
+        sock = Sock()
+
+        def close(self):
+            events.append("end")
+
+    class Chan(object):
+        stream = Stream()
+
+        def close(self):
+            events.append("end")
+
+    class Conn(object):
+        _channel = Chan()
+        closed = False
+
+        def close(self):
+            events.append("end")
+
+        def fileno(self):
+            return 7
+
+    class Thread(object):
+        def __init__(self, name):
+            self.name = name
+
+        def join(self, timeout=None):
+            events.append(self.name)
+
+        def is_alive(self):
+            return False
+
+    try:
+        srv = server.ThreadPoolServer(rpyc.VoidService, hostname="127.0.0.1", port=0, auto_register=False)
+    except OSError as ex:
+        raise Inexpressible("cannot instantiate ThreadPoolServer: %s" % ex)
+    try:
+        srv.workers = [Thread("worker")]
+        srv.polling_thread = Thread("poller")
+        srv.fd_to_conn[7] = Conn()
+        try:
+            srv.close()
+        except Exception as ex:  # noqa
+            raise Inexpressible("ThreadPoolServer.close() cannot be run on stand-in threads / connections: %r" % (ex,))
+        if "worker" not in events:
+            raise Inexpressible("ThreadPoolServer.close() no longer joins its workers: %r" % (events,))
+        return "end" in events[:events.index("worker")]
+    finally:
+        try:
+            srv.listener.close()
+        except Exception:  # noqa
+            pass
+
+
 def gen_server():
     from rpyc.core import consts
     from rpyc.utils import server
@@ -95,6 +163,10 @@ def gen_server():
           "raises EOFError is served through the real `_serve_requests`; true iff the newcomer is still in `fd_to_conn`",
           "and not closed afterwards -/",
           "def poolDropSparesNewcomer : Bool := %s" % ("true" if _drop_spares_newcomer(server) else "false")]
+    L += ["", "/-- does `ThreadPoolServer.close()` end the connections' streams (socket shutdown / connection close) BEFORE it",
+          "joins the workers - so that a worker blocked in a read on one of them comes back and can be joined?  Measured on",
+          "the live `close()` with stand-in threads and one stand-in connection that record the order of events -/",
+          "def poolCloseUnblocksWorkers : Bool := %s" % ("true" if _close_unblocks_workers(server) else "false")]
     L += ["", "end Rpyc.Gen.Srv", ""]
     return "\n".join(L)
 
